@@ -7,7 +7,7 @@ use vtypes::Rng;
 
 use crate::hist::{self, History};
 use crate::monitors::{config_for, Stats, Violation, FRAGSETS};
-use crate::sut::{build_native, id_of};
+use crate::sut::{build_native, build_native_named, id_of};
 use crate::{keep_violations, Args, Distinct, Report};
 
 /// Everything observable about the definition a history builds, as one string per facet.
@@ -38,7 +38,28 @@ pub fn facets(h: &History) -> Result<Vec<(String, String)>, String> {
             generate(&def, &config_for(fragset)),
         ));
     }
+    coarse_facets(h, &mut out);
     Ok(out)
+}
+
+/// The same history with coarser type names (one name recorded with several sizes and
+/// alignments): generated text only.
+fn coarse_facets(h: &History, out: &mut Vec<(String, String)>) {
+    let naming = 1 + (h.digest() % 3) as usize;
+    if let Ok(def) = build_native_named(h, naming) {
+        for fragset in [0usize, 3] {
+            out.push((
+                format!("generate[{}, type naming {}]", FRAGSETS[fragset], naming),
+                generate(&def, &config_for(fragset)),
+            ));
+        }
+    }
+}
+
+/// The same history through the typed entry points of a builder resolved by a type table.
+fn table_facet(h: &History) -> Option<String> {
+    let kind = (h.digest() % 3) as usize;
+    std::panic::catch_unwind(|| crate::resolver::typed_replay(h, kind)).ok().and_then(|r| r.ok())
 }
 
 pub fn digest_of(facets: &[(String, String)]) -> u64 {
@@ -71,6 +92,24 @@ pub fn check_one(h: &History, out: &mut Vec<Violation>) -> Option<u64> {
         _ => return None,
     };
     drop(junk);
+    let mut a = a;
+    let mut b = b;
+    // through a type table: here (after tables with other answers were used in this thread),
+    // and in a thread of its own that has never resolved anything
+    {
+        let other = History { reqs: h.reqs.clone(), unique_names: h.unique_names, origin: String::new() };
+        for k in 1..3 {
+            let kind = ((h.digest() % 3) as usize + k) % 3;
+            let _ = std::panic::catch_unwind(|| crate::resolver::typed_replay(&other, kind));
+        }
+        let here = table_facet(h);
+        let hh = h.clone();
+        let fresh = std::thread::spawn(move || table_facet(&hh)).join().ok().flatten();
+        if let (Some(x), Some(y)) = (here, fresh) {
+            a.push(("through a type table".to_owned(), x));
+            b.push(("through a type table".to_owned(), y));
+        }
+    }
     for ((ka, va), (_, vb)) in a.iter().zip(b.iter()) {
         if va != vb {
             let pos = va
@@ -128,7 +167,12 @@ pub fn mode(args: &Args) {
             hist::gen_layout_history(&mut rng)
         });
     }
-    for h in &histories {
+    // a perturbed process goes through the histories in the opposite order: what a history
+    // gives must not depend on what the process did before (digests are reported in list order)
+    let order: Vec<usize> = if perturb != 0 { (0..histories.len()).rev().collect() } else { (0..histories.len()).collect() };
+    let mut slots: Vec<Option<String>> = vec![None; histories.len()];
+    for &hi in &order {
+        let h = &histories[hi];
         evaluations += 1;
         stats.histories += 1;
         let mut v = Vec::new();
@@ -137,7 +181,7 @@ pub fn mode(args: &Args) {
         match d {
             Some(d) => {
                 stats.generate_calls += 8;
-                digests.push(format!("{:016x} {:016x}", h.digest(), d));
+                slots[hi] = Some(format!("{:016x} {:016x}", h.digest(), d));
                 if h.closes() >= 2 {
                     distinct.add("C19", h.digest());
                     if samples.len() < 4 && (h.digest() % 53 == 0 || samples.is_empty()) {
@@ -145,9 +189,10 @@ pub fn mode(args: &Args) {
                     }
                 }
             }
-            None => digests.push(format!("{:016x} unbuilt", h.digest())),
+            None => slots[hi] = Some(format!("{:016x} unbuilt", h.digest())),
         }
     }
+    digests.extend(slots.into_iter().flatten());
     let mut extra = BTreeMap::new();
     extra.insert("digests".to_owned(), serde_json::json!(digests));
     extra.insert("perturb".to_owned(), serde_json::json!(perturb));
